@@ -349,7 +349,9 @@ func (s *sim) loop() {
 				if !m.faulted && !m.dead[m.inc] {
 					s.violate("C13/deploy-returned-error-without-fault", "member %d incarnation %d: %v", i, m.inc, m.err)
 				} else {
-					s.logf("d=%d h=%d m%d inc=%d returned error after fault: %s", s.decisions, h, i, m.inc, clipS(m.err.Error(), 120))
+					// the text depends on which of the two ready select cases (context
+					// done / stream closed) Go picked: not part of the event log
+					s.logf("d=%d h=%d m%d inc=%d returned an error after crash/fault", s.decisions, h, i, m.inc)
 					if _, ok := s.restartAt[i]; !ok {
 						s.restartAt[i] = h + 3
 					}
